@@ -40,10 +40,12 @@ class Tokenizer:
                 break
         # roles from the return statement
         rets = [n for n in cfg.nodes if n.kind == "stmt" and isinstance(n.ast, ast.Return)]
-        need(len(rets) == 1 and isinstance(rets[0].ast.value, ast.Tuple) and len(rets[0].ast.value.elts) == 4 and
-             all(isinstance(e, ast.Name) for e in rets[0].ast.value.elts),
+        need(len(rets) == 1, "strip_bonding_descriptors has %d return statements" % len(rets), fi)
+        from .common import resolve_ast
+        retval, _ = resolve_ast(fi.flow, rets[0].ast.value, rets[0].id)
+        need(isinstance(retval, ast.Tuple) and len(retval.elts) == 4 and all(isinstance(e, ast.Name) for e in retval.elts),
              "strip_bonding_descriptors no longer returns (text, descriptors, ez marks, attributes) as four names", fi)
-        self.TEXT, self.DESCR, self.EZ, self.ATTRS = [e.id for e in rets[0].ast.value.elts]
+        self.TEXT, self.DESCR, self.EZ, self.ATTRS = [e.id for e in retval.elts]
         self.dispatch = self._dispatch()
         # atom branch = handler of a letter; roles COUNTER / PREV
         ab = self.dispatch.get("C")
